@@ -8,6 +8,12 @@ CHECKS = {
  "C01": dict(
    text="Theorems (Props/C01.v): for ANY valid schedule (each action reads only wires already holding this cycle's value, each wire written once, state changes last) every written wire ends the cycle holding exactly the value its definition yields from the end-of-cycle wire values and the start-of-cycle registers/memory; known wires keep their values; state changes are the write ports applied to the start-of-cycle state with the final values; two valid schedules of the same actions give the same values and state; evaluation reads only the wires an expression mentions. (The first-draft statement without 'known wires hold values' is refuted in Coq.) Tie: every schedule the implementation produces (4, thorough 12, compilations per program under fresh hash seeds, fetched through the hook) validated by the extracted valid_schedule; compiled program equal to the model's build_program up to action order; per-cycle values/registers/memory equal to the model.",
    note="that Program::new always produces a valid schedule is proved in BuildProofs.v when available and tied by validating every observed schedule; HashMap semantics trusted.", ref="4 C01"),
+ "C12": dict(
+   text="Theorems (Props/C12.v): the model is a function of its inputs; the two places where a randomly seeded hash table can reorder simulation work are shown not to reach any value or state: any two valid schedules of the same actions give equal wire values, registers, memory, status and cycle; the clock edge does not depend on the order in which a bank's defaults are listed. Tie: the real binary run k times per (program, mode) - each process draws fresh hash keys - with exit status equal, stdout byte-identical in default/-q/-t and equal as per-cycle line multisets under -d/--trace-assignments; statement-shuffled and consistently renamed variants compared on per-cycle values and final state; rejected programs compiled k times: equal (kind, names) multisets.",
+   note="that the model's order parameters are ALL the places hash order can leak is argued from the reviewed list of iteration sites (DESIGN 6) and supported by the repeated runs; diagnostic ORDER is free by the property.", ref="4 C12"),
+ "C19": dict(
+   text="Theorems (Props/C19.v) about the decision table Cli.main_model: exit 0 exactly for help/version/'syntax OK' under --check on an accepted file/a simulation that completed and printed its final state, exit 1 with usage or a message and never a final state otherwise; --check never simulates; the timeout honoured is the parsed third positional (u32 grammar: optional '+', digits, < 2^32) or the default of the compiled code (Generated.gen_timeout). Tie: the real binary on ~700 (thorough 12000) argument vectors over all options, 0-4 positionals, valid/rejected/missing HCL, valid/missing/wrong-extension/unloadable/non-UTF-8 images, boundary and malformed timeouts: exit status and outcome class vs the extracted decision table, printed cycle counts vs the timeout.",
+   note="partial by nature: getopts (incl. 'option given more than once'), process exit and stream plumbing are modelled by their outcomes, not verified.", ref="4 C19"),
  "C15": dict(
    text="Theorems (Props/C15.v): a well-formed data line loads exactly its bytes at consecutive addresses; comment-only and pipe-free lines contribute nothing; every other line is refused (complete characterisation of accepted lines); a file is refused iff empty or containing a refused line, else it is the effect of its lines in order; put_bytes/mem_get law. Tie: valid listings judged against the generator's own byte map, malformed lines (every truncation, column replaced/inserted by blank g + | : e-acute NUL heart), corner files, all vs the model.",
    note="BufRead::lines modelled by split_lines (LF / CRLF); invalid UTF-8 (an io::Error in Rust) is outside the model and exercised through the binary in C19/C13.", ref="4 C15"),
